@@ -179,16 +179,15 @@ def h_blocking(ctx):
 ATTR_TEXTS = ("#[test]", "#[cfg(test)]", "#[inline]", "#[cfg(not(test))]", "#[derive(Debug)]", "#[tokio::test]")
 
 
-def h_context_kinds(ctx):
+def h_context_kinds(ctx, part="test", depth=3):
     from vsym.nodes import Duck
     from vsym.pathex import If
     from vsym.symkind import SKind, kind_table, symbolic_tables
     import src.linters.clone_abuse.rust_analyzer as clone_mod
     from src.analyzers import rust_context
     table = kind_table("rust")
-    depth = 3
     kinds = [SKind(ctx, f"ancestor{i}_kind", table) for i in range(depth)]
-    has_attr = [ctx.flag(f"ancestor{i}_has_preceding_sibling") for i in range(depth)]
+    has_attr = [ctx.flag(f"ancestor{i}_has_preceding_sibling") if part == "test" else False for i in range(depth)]
     attr_kinds = [SKind(ctx, f"sibling{i}_kind", table) if has_attr[i] else None for i in range(depth)]
     attr_texts = [ctx.pick(f"sibling{i}_text", ATTR_TEXTS) if has_attr[i] else None for i in range(depth)]
     call = Duck("call_expression", "x.clone()", start=(9, 8))
@@ -198,6 +197,14 @@ def h_context_kinds(ctx):
         anc = Duck(kind, "", below_sibs + [below])      # attribute items are preceding siblings inside the parent
         below = anc
         below_sibs = [Duck(attr_kinds[i], attr_texts[i])] if (i < depth and has_attr[i]) else []
+    if part == "loop":
+        # ---- loop context (clone-abuse)
+        with symbolic_tables(clone_mod, clone_mod.RustCloneAnalyzer):
+            got_loop = clone_mod.RustCloneAnalyzer()._is_inside_loop(call)
+        want_loop = Or(*[k.is_one_of(("for_expression", "while_expression", "loop_expression")) for k in kinds])
+        ctx.cover("in-loop" if got_loop else "not-in-loop")
+        ctx.require("loop-context-iff-an-ancestor-is-a-loop", Eq(got_loop, want_loop))
+        return
     # ---- test context
     with symbolic_tables(rust_context):
         got_test = rust_context.is_inside_test(call)
@@ -214,11 +221,10 @@ def h_context_kinds(ctx):
     ctx.cover("in-test" if got_test else "not-in-test")
     ctx.require("test-context-iff-enclosing-test-fn-or-cfg-test-mod", Eq(got_test, want_test),
                 attrs=[t for t in attr_texts if t])
-    # ---- loop context (clone-abuse)
-    with symbolic_tables(clone_mod, clone_mod.RustCloneAnalyzer):
-        got_loop = clone_mod.RustCloneAnalyzer()._is_inside_loop(call)
-    want_loop = Or(*[k.is_one_of(("for_expression", "while_expression", "loop_expression")) for k in kinds])
-    ctx.require("loop-context-iff-an-ancestor-is-a-loop", Eq(got_loop, want_loop))
+
+
+def h_loop_kinds(ctx):
+    return h_context_kinds(ctx, "loop")
 
 
 ASSUMPTIONS = (
@@ -245,10 +251,16 @@ def obligations(tier):
                       "rust_context.is_inside_test/is_async_function", "BlockingAsyncConfig.from_dict"],
            bounds="allow_in_tests and the three detect_* switches symbolic booleans; forked: %d contexts x %d call forms x async/sync x wrapper (none/spawn_blocking/block_in_place) x with/without use lines" % (len(CONTEXTS), len(BLOCKING_CALLS)),
            **common),
-        Ob(name="K3-context-walks-symbolic-kinds", engine="pathex", harness=h_context_kinds,
-           functions=["rust_context.is_inside_test/_is_test_context/has_test_attribute/has_cfg_test_attribute", "RustCloneAnalyzer._is_inside_loop"],
-           bounds="3 ancestors whose kinds (and the kinds of their preceding siblings) are solver variables over all 355 kinds of the Rust grammar (symbolic to the end); "
-                  "forked: presence of a preceding sibling and its text from 6 attribute spellings",
-           timeout=300, workers=14, must_cover=("in-test", "not-in-test"),
+        Ob(name="K3b-loop-context-symbolic-kinds", engine="pathex", harness=h_loop_kinds,
+           functions=["RustCloneAnalyzer._is_inside_loop"],
+           bounds="3 ancestors whose kinds are solver variables over all 355 kinds of the Rust grammar (symbolic to the end)",
+           timeout=300, workers=14, must_cover=("in-loop", "not-in-loop"),
            stubs=("duck-typed tree-sitter nodes", "SymSet wrapper around clone_abuse._LOOP_NODE_TYPES")),
+        Ob(name="K3-context-walks-symbolic-kinds", engine="pathex",
+           harness=(lambda ctx: h_context_kinds(ctx, "test", 2)) if tier == "quick" else h_context_kinds,
+           functions=["rust_context.is_inside_test/_is_test_context/has_test_attribute/has_cfg_test_attribute"],
+           bounds=("2" if tier == "quick" else "3") + " ancestors whose kinds (and the kinds of their preceding siblings) are solver variables over all 355 kinds of the Rust grammar (symbolic to the end); "
+                  "forked: presence of a preceding sibling and its text from 6 attribute spellings",
+           timeout=300 if tier == "quick" else 1200, workers=14, must_cover=("in-test", "not-in-test"),
+           stubs=("duck-typed tree-sitter nodes", "SymSet wrappers around the kind tables of rust_context")),
     ]
